@@ -83,6 +83,11 @@ package shrex
 //@   callpre ReaderFrom).ReadFrom: statusResp.Status == shrexpb.Status_OK && $arg0 == resp
 //@   callpre WriterTo).WriteTo: $arg0 == req
 //@   ensures err == nil ==> $RespRead && result1 == statusSuccess
+// (and the converse, which the callers' clean-up depends on: once the response was decoded into the caller's
+// buffer the request is a success - a filled buffer is never handed back together with an error, because the
+// getters verify, and reset, the buffer only after a nil result)
+//@   requires !$RespRead
+//@   ensures $RespRead ==> err == nil
 //@   ensures result1 == statusSuccess ==> err == nil
 //@   ensures result1 == statusNotFound <==> err == ErrNotFound
 //@   ensures result1 == statusInternalErr <==> err == ErrInternalServer
@@ -96,6 +101,8 @@ package shrex
 //@   havoc $RespRead
 //@   callpre Client).doRequest: $arg3 == req && $arg4 == resp && $arg5 == peer
 //@   ensures err == nil ==> $RespRead
+//@   requires !$RespRead
+//@   ensures $RespRead ==> err == nil
 
 
 // ---------------------------------------------------------------------------------------------
